@@ -11,6 +11,7 @@ mod olpc;
 mod c20;
 mod common;
 mod keys;
+mod lifecycle;
 mod model;
 mod verify;
 
@@ -21,6 +22,7 @@ struct State {
     c04: Option<c04::Ctx>,
     verify: Option<verify::Ctx>,
     c11: Option<c11::Ctx>,
+    life: Option<lifecycle::Ctx>,
 }
 
 fn dispatch(st: &mut State, scn: &Value) -> Value {
@@ -33,6 +35,7 @@ fn dispatch(st: &mut State, scn: &Value) -> Value {
             st.verify.get_or_insert_with(|| verify::Ctx::new(&common::family(), &prop)).run(scn, ev, pin)
         }
         "C20" => c20::run(scn),
+        "LIFE" => st.life.get_or_insert_with(|| lifecycle::Ctx::new(&common::family())).run(scn),
         "C10" => c10::run(scn, &mut common::rng(10 + scn["i"].as_u64().unwrap_or(0) + 1000003 * std::env::var("ITV_SALT").ok().and_then(|s| s.parse::<u64>().ok()).unwrap_or(0))),
         "C11" => st.c11.get_or_insert_with(c11::Ctx::new).run(scn),
         "C04" => st.c04.get_or_insert_with(|| c04::Ctx::new(&common::family())).run(scn, true, false),
@@ -44,7 +47,7 @@ fn main() {
     let args: Vec<String> = std::env::args().collect();
     let cmd = args.get(1).map(|s| s.as_str()).unwrap_or("");
     common::quiet_panics();
-    let mut st = State { c04: None, verify: None, c11: None };
+    let mut st = State { c04: None, verify: None, c11: None, life: None };
     let stdout = std::io::stdout();
     let mut out = std::io::BufWriter::new(stdout.lock());
     match cmd {
@@ -90,6 +93,7 @@ fn main() {
                     }
                 }
                 "C20" => c20::record(n, &mut out),
+                "C09bits" => writeln!(out, "{}", lifecycle::Ctx::new(&common::family()).all_bits(n)).unwrap(),
                 "C10all" => writeln!(out, "{}", c10::all_scalars(n.max(1) as u32)).unwrap(),
                 "C11keyid" => writeln!(out, "{}", c12::keyid_preimages()).unwrap(),
                 "C11all" => writeln!(out, "{}", c11::Ctx::new().all_scalars(n.max(1) as u32)).unwrap(),
